@@ -387,6 +387,12 @@ def run(prog: Program, rep, tier="quick"):
     share(rep, lambda: c07.r07_1(prog, rep), "R08.6", lambda o: o.rule in ("R07.1a", "R07.1c", "R07.1d", "R07.1g"),
           "the lock every conditional ref update relies on (shared with R07.1): exclusive acquisition, a failed acquisition unlinks nothing, "
           "no unlink after the rename, ownership flag agrees - otherwise two writers end up inside one ref's lock")
+    from rules import c09, c10
+    share(rep, lambda: c09.r09_5(prog, rep), "R08.7", lambda o: True,
+          "a ref is stored somewhere at every instant (shared with R09.5): loose refs go only after the new packed-refs is committed, the packed "
+          "entry goes before the loose file on delete - otherwise a concurrent reader or add_if_new sees the ref absent")
+    share(rep, lambda: c10.r10_8(prog, rep), "R08.8", lambda o: True,
+          "refs are read loose first, packed second (shared with R10.8): the order in which pack_refs moves them, so no interleaving hides a ref")
     from sa.common import alias_guard
     alias_guard(prog, rep, "R08.4", {"set_if_equals", "remove_if_equals", "add_if_new"})
     rep.floor("R08.5", 5)
